@@ -1,9 +1,9 @@
 #!/bin/bash
-# usage: import_seed.sh SUFFIX ID...   — copy /tmp/s4/out-ID into seeded/ID<SUFFIX>, drop the scratch worktree
+# usage: import_seed.sh SUFFIX ID...   — copy ${SEEDROOT:-/tmp/s4}/out-ID into seeded/ID<SUFFIX>, drop the scratch worktree
 suf=$1; shift
 for id in "$@"; do
   mkdir -p /verif/seeded/${id}${suf}
-  cp /tmp/s4/out-$id/{patch.diff,demo.diff,notes.md} /verif/seeded/${id}${suf}/
-  git -C /repo worktree remove --force /tmp/s4/$id 2>/dev/null
-  rm -rf /tmp/s4/target-$id
+  cp ${SEEDROOT:-/tmp/s4}/out-$id/{patch.diff,demo.diff,notes.md} /verif/seeded/${id}${suf}/
+  git -C /repo worktree remove --force ${SEEDROOT:-/tmp/s4}/$id 2>/dev/null
+  rm -rf ${SEEDROOT:-/tmp/s4}/target-$id
 done
